@@ -84,6 +84,7 @@ pub fn gen_cov_case(rng: &mut Rng, tier: &str, prop: &str) -> Case {
             "delim" => *rng.pick(&[",", "\t", " "]),
             "bin_size" => match rng.weighted(&[30, 40, 30]) { 0 => 1, 1 => rng.usize(2, 6), _ => rng.usize(7, 40) },
             "bin_count" => match rng.weighted(&[20, 50, 30]) { 0 => 1, 1 => rng.usize(2, 6), _ => rng.usize(7, 24) },
+            "order" => if rng.chance(1, 2) { 0 } else { rng.range(1, 1 << 40) },
         },
         extra,
     }
